@@ -66,6 +66,12 @@ type TupleVal []Value
 
 type BigVal struct{ T *Term }
 
+// BigFloatVal models math/big.Float for the two exact uses: an integer or a double.
+type BigFloatVal struct {
+	Int *Term // big-sorted integer, or nil
+	FP  *Term // double, or nil
+}
+
 type ChanVal struct {
 	Closed bool
 	Buf    []Value
